@@ -31,7 +31,12 @@ from radioactivedecay.plots import (
     _parse_decay_mode_label,
     _parse_nuclide_label,
 )
-from radioactivedecay.utils import build_id, elem_to_Z, parse_nuclide
+from radioactivedecay.utils import (
+    build_id,
+    elem_to_Z,
+    get_metastable_chars,
+    parse_nuclide,
+)
 
 
 class Nuclide:
@@ -113,7 +118,7 @@ class Nuclide:
 
         """
 
-        return int(self.nuclide.split("-")[1].strip("mn"))
+        return int(self.nuclide.split("-")[1].strip("".join(get_metastable_chars())))
 
     @property
     def state(self) -> str:
